@@ -814,7 +814,11 @@ func (E *Engine) external(fr *Frame, st *State, fn *ssa.Function, name string, a
 		}
 	}
 	if E.isNoEffect(name, pkg) {
-		E.note("calls into " + pkg.Path() + " have no effect on verified state and return a function of their arguments (E1)")
+		if E.nondet(name) {
+			E.note("calls into " + pkg.Path() + " that read a clock, a random source, an atomic or an object with hidden state have no effect on verified state and return unconstrained values (E1)")
+		} else {
+			E.note("calls into " + pkg.Path() + " have no effect on verified state and return a function of their arguments (E1)")
+		}
 		return E.pureResult(fr, st, name, res, args, instr)
 	}
 	return E.unknownCall(fr, st, "external "+name, res, instr, args)
